@@ -65,9 +65,6 @@ func (g *gen) aliasHarness(m *Message, f *Field) {
 	g.p("func VH_C07_%s_%s_dec() {", n, f.GoName)
 	g.p("\tsrc := &%s{}", n)
 	g.p("\tvhBuild_%s_%s(src, \"a\", 1)", n, f.GoName)
-	g.p("\tif vhChoice(\"unk\", 2) == 1 {")
-	g.p("\t\tsrc.unknownFields = vhUnknown_%s(\"u\")", n)
-	g.p("\t}")
 	g.p("\tbuf := vhSpec_%s([]byte{}, src)", n)
 	g.p("\tsnap := vhSnapshot(buf)")
 	g.p("\tx := &%s{}", n)
@@ -86,9 +83,6 @@ func (g *gen) aliasHarness(m *Message, f *Field) {
 	g.p("func VH_C07_%s_%s_enc() {", n, f.GoName)
 	g.p("\tx := &%s{}", n)
 	g.p("\tvhBuild_%s_%s(x, \"a\", 1)", n, f.GoName)
-	g.p("\tif vhChoice(\"unk\", 2) == 1 {")
-	g.p("\t\tx.unknownFields = vhUnknown_%s(\"u\")", n)
-	g.p("\t}")
 	g.p("\tmsg := x.ProtoReflect()")
 	g.p("\tmethods := msg.ProtoMethods()")
 	g.p("\tflags := vhFlags(\"det\")")
@@ -283,9 +277,43 @@ func (g *gen) MiscSource(prop string, msgs []*Message, fieldFilter func(m *Messa
 				}
 				g.aliasHarness(m, f)
 			}
+			g.aliasUnknown(m)
 		case "C05":
 			g.detHarnesses(m)
 		}
 	}
 	return g.sb.String()
+}
+
+func (g *gen) aliasUnknown(m *Message) {
+	n := m.GoName
+	g.p("// unknown fields: kept by copy, never by reference to the input")
+	g.p("func VH_C07_%s_unknown_dec() {", n)
+	g.p("\tbuf := append([]byte{}, vhUnknown_%s(\"u\")...)", n)
+	g.p("\tsnap := vhSnapshot(buf)")
+	g.p("\tx := &%s{}", n)
+	g.p("\tif vhChoice(\"merge\", 2) == 1 {")
+	g.p("\t\tx.unknownFields = vhBytes(\"old\", 4)")
+	g.p("\t}")
+	g.p("\terr := vhUnmarshalStep_%s(x, buf, 0)", n)
+	g.p("\tvhAssert(\"accepts\", err == nil)")
+	g.p("\tvhAssert(\"input.unmodified\", vhUnchanged(buf, snap))")
+	g.p("\tvhNoAlias_%s(\"noalias\", x, buf)", n)
+	g.p("}")
+	g.p("")
+	g.p("func VH_C07_%s_unknown_enc() {", n)
+	g.p("\tx := &%s{}", n)
+	g.p("\tx.unknownFields = vhUnknown_%s(\"u\")", n)
+	g.p("\tmsg := x.ProtoReflect()")
+	g.p("\tmethods := msg.ProtoMethods()")
+	g.p("\tvhEpoch()")
+	g.p("\tvhTrack(true)")
+	g.p("\t_ = methods.Size(protoiface.SizeInput{Message: msg})")
+	g.p("\tout, err := methods.Marshal(protoiface.MarshalInput{Message: msg})")
+	g.p("\tvhTrack(false)")
+	g.p("\tvhAssert(\"marshal.noerr\", err == nil)")
+	g.p("\tvhAssert(\"message.undisturbed\", vhWrites() == 0)")
+	g.p("\tvhNoAlias_%s(\"out.noalias\", x, out.Buf)", n)
+	g.p("}")
+	g.p("")
 }
